@@ -47,18 +47,17 @@ def run(chk):
         raise vlib.FrameworkError("non-vacuity: the deliberately racy variant of GlobalLoop was not rejected")
     chk.step("non-vacuity: racy variant rejected by TLC", violated=racy["violated"])
     plan = [
-        dict(flavour="rel", exe="record_sched", scen="sched", runs=(64, 1500), opts={}),
-        dict(flavour="rel", exe="record_sched", scen="sched", runs=(32, 600), opts={"cpus": 1}),
-        dict(flavour="tsan", exe="record_sched", scen="sched", runs=(32, 600), opts={"maxMovable": 14, "maxSteps": 6}),
-        dict(flavour="rel", exe="record_sched", scen="runs", runs=(64, 1500), opts={}),
-        dict(flavour="asan-ubsan", exe="record_sched", scen="runs", runs=(32, 600), opts={}),
+        dict(flavour="rel", exe="record_sched", scen="sched", runs=(64, 1500), opts={}, keep_events=True),
+        dict(flavour="tsan", exe="record_sched", scen="sched", runs=(32, 600), opts={"maxMovable": 14, "maxSteps": 6}, keep_events=True),
+        dict(flavour="rel", exe="record_sched", scen="runs", runs=(64, 1500), opts={}, keep_events=True),
+        dict(flavour="asan-ubsan", exe="record_sched", scen="runs", runs=(32, 600), opts={}, keep_events=True),
     ]
     run_plan(chk, "C08", plan, nontrivial)
     fs = chk.cov.get("forced_schedules", {})
     if fs.get("order_not_realised", 0) > 0:
         raise vlib.FrameworkError("a forced completion order was not realised by the hook harness: %s" % fs)
     chk.cov["rule"] = ("sched: per seeded circuit placeGlobal runs under 6 schedules of the two parallel solves (free, x-first, y-first, alternating, random, random "
-                       "delays), forced through the COLOQUINTE_VERIF hook, multi-core, single-core affinity and under ThreadSanitizer; runs: global/legalize/detailed "
+                       "delays), forced through the COLOQUINTE_VERIF hook, in one process on all cores and in a second process pinned to a single core, and under ThreadSanitizer; runs: global/legalize/detailed "
                        "jobs on copies, with and without callback, in two processes with different job orders and an unrelated job first; TLC checks via its "
                        "per-run memo that equal (stage, input) give identical coordinates and orientations, that solves are properly nested between callbacks, and "
                        "refuses ThreadSanitizer reports; non-trivial = >= 2 forced lower-bound steps and >= 4 completed schedules (sched) / >= 6 completed jobs (runs)")
